@@ -68,3 +68,34 @@ package convert
 //@   let w, e1 = toQoSProto(m)
 //@   let m2, e2 = toQoS(w)
 //@   ensures imp(isconst(m, message.QoS), e1 == nil && e2 == nil && m2 == m)
+
+// ---------------------------------------------------------------- C12: decoder output invariant
+// Whatever the wire bytes were, a message handed up by the converter has, in every
+// id-or-alias position, one of the two dynamic types its consumers switch on (never nil),
+// and no nil group / nil stream chunk. This is the precondition under which the message can
+// be encoded again and under which Downstream.wireToDownstreamChunk has no unreachable arm (C03).
+
+//@ define wfIDOrAlias(x): typeis(x, message.DataIDAlias) || (typeis(x, *message.DataID) && unbox(x, *message.DataID) != nil)
+//@ define wfUpOrAlias(x): typeis(x, message.UpstreamAlias) || (typeis(x, *message.UpstreamInfo) && unbox(x, *message.UpstreamInfo) != nil)
+
+//@ func toDataIDOrAlias
+//@   props C12
+//@   ensures imp(result1 == nil, wfIDOrAlias(result0))
+
+//@ func toUpstreamOrAlias
+//@   props C12
+//@   ensures imp(result1 == nil, wfUpOrAlias(result0))
+
+//@ func toDataPointGroup
+//@   props C12
+//@   ensures imp(result1 == nil, result0 != nil && wfIDOrAlias(result0.DataIDOrAlias))
+
+//@ func toDataPointGroups
+//@   props C12
+//@   ensures imp(result1 == nil, len(result0) == len(in) && forall(i, int, imp(0 <= i && i < len(result0), result0[i] != nil && wfIDOrAlias(result0[i].DataIDOrAlias))))
+//@   loop 1 invariant fresh(res) && len(res) == rangeindex + 1 && rangeindex < len(in)
+//@   loop 1 invariant forall(i, int, imp(0 <= i && i <= rangeindex, res[i] != nil && wfIDOrAlias(res[i].DataIDOrAlias)))
+
+//@ func toStreamChunk
+//@   props C12
+//@   ensures imp(result1 == nil, result0 != nil && forall(i, int, imp(0 <= i && i < len(result0.DataPointGroups), result0.DataPointGroups[i] != nil && wfIDOrAlias(result0.DataPointGroups[i].DataIDOrAlias))))
